@@ -141,6 +141,18 @@ def judge_case(case):
                          f'{name}: adding {kind} to a completed running order gave '
                          f'{type(ex).__name__ if ex else "no exception"}', 'MosCompletedMergeError',
                          type(ex).__name__ if ex else None)
+                # the binary form `ro + m` is guarded like `ro += m`
+                try:
+                    res = target + MosFile.from_string(text)
+                    ex2 = None
+                except Exception as e_:
+                    res, ex2 = None, e_
+                if not isinstance(ex2, MosCompletedMergeError):
+                    fail(f'{kind}|binary-plus-accepted-after-completion',
+                         f'{name}: `ro + {kind}` on a completed running order gave '
+                         f'{type(ex2).__name__ if ex2 else "no exception"}' +
+                         ('' if res is None or res is target else ' and handed back another object'),
+                         'MosCompletedMergeError', type(ex2).__name__ if ex2 else None)
                 if str(target) != done:
                     fail(f'{kind}|changed-after-completion', f'{name}: {kind} changed a completed running order')
                     done_now = str(target)
@@ -203,6 +215,13 @@ def judge_case(case):
                 if first_fail == 'after' and not isinstance(ex, MosCompletedMergeError) and n_after:
                     fail('collection-strict|no-MosCompletedMergeError',
                          f'strict merge gave {type(ex).__name__ if ex else "no exception"}')
+                if first_fail == 'after' and isinstance(ex, MosCompletedMergeError):
+                    # the refusal changes nothing: the collection still holds the completed running order
+                    if not mc.completed or canon(ET.fromstring(str(mc)).find('roCreate')) != \
+                            canon(ET.fromstring(str(_fold_prefix(case))).find('roCreate')):
+                        fail('collection-strict|state-lost-by-refusal',
+                             f'after the strict refusal: mc.completed={mc.completed}, content equals the state at '
+                             'completion: False' if mc.completed else 'after the strict refusal the collection is no longer completed')
             else:
                 if ex is not None:
                     fail('collection-non-strict|raised', f'non-strict merge raised {type(ex).__name__}')
